@@ -359,6 +359,11 @@ class OpsMixin:
             ra, rb = run.rec(a.oid), run.rec(b.oid)
             if ra.concrete and rb.concrete:
                 return self.new_list(ra.items + rb.items)
+            if ra.concrete != rb.concrete:
+                sy, co = (ra, rb) if not ra.concrete else (rb, ra)
+                nm = run.fresh_name("concat")
+                nr = ListRec(None, sy.length + len(co.items), ("any",), None, sym=nm)
+                return VRef(run.alloc(nr), "list")
             if not ra.concrete and not rb.concrete and ra.elem == rb.elem:
                 nm = run.fresh_name("concat")
                 nr = ListRec(None, ra.length + rb.length, ra.elem, None, sym=nm)
@@ -411,6 +416,8 @@ class OpsMixin:
         raise E.Unsupported(f"binop {type(op).__name__} on {a!r}, {b!r}")
 
     def any_binop(self, op, a, b):
+        if isinstance(op, (ast.BitOr, ast.BitAnd)) and isinstance(a, VAny) and isinstance(b, VAny):
+            return VAny(z3.Function(f"any_{type(op).__name__}", AnySort, AnySort, AnySort)(a.t, b.t), a.tag)     # flag combination
         if self.opt("opaque_any_methods"):
             if self.run.choose([("ok", None), ("TypeError", None)], "opaque arithmetic"):
                 raise E.PyExc(VExc("TypeError"), "opaque arithmetic")
